@@ -373,3 +373,34 @@ def pinned_f4(ctx):
 
 
 PINNED = [pinned_f4]
+
+
+def _dataset_case(name):
+    def f(ctx):
+        from .. import datasets
+
+        if not datasets.available(name):
+            ctx.skip("dataset file missing: " + name)
+            return
+        g0 = M.Graph.from_g2o(datasets.path(name))
+        d = tempfile.mkdtemp(prefix="c13-", dir=os.environ.get("VF_SCRATCH"))
+        feats = {"family": "dataset:" + name, "extreme": False}
+        try:
+            g = g0
+            for c in (1, 2):
+                pth = os.path.join(d, "d%d.g2o" % c)
+                g.to_g2o(pth)
+                if c == 1:
+                    check_file_tokens(ctx, pth, g0, feats, {"dataset": name})
+                g = M.Graph.from_g2o(pth)
+                compare_graphs(ctx, g0, g, c, dict(feats, cycle=c), {"dataset": name})
+            c0, c1 = float(g0.calc_chi2()), float(g.calc_chi2())
+            ctx.close("roundtrip-chi2", c1, c0, 1e-9 * abs(c0), feats, None, {"dataset": name})
+        finally:
+            shutil.rmtree(d, ignore_errors=True)
+        ctx.count("dataset:" + name)
+        ctx.nontrivial("dataset-" + name)
+    return f
+
+
+DATASET_CASES = [_dataset_case("intel"), _dataset_case("garage")]
